@@ -200,6 +200,7 @@ def trace_cfg(opts):
   MaxClock = 100000
   FaultBudget = 100000
   EnvBudget = 100000
+  InitDisc = {}
 SPECIFICATION TSpec
 INVARIANT Progress
 CHECK_DEADLOCK FALSE
@@ -208,7 +209,7 @@ CHECK_DEADLOCK FALSE
     return mod, cfg
 
 
-def model_cfg():
+def model_cfg(spec, props, env, faults, initdisc):
     k = CY.MODEL_CONSTANTS
     return '''CONSTANTS
   MinWait = %d
@@ -225,13 +226,28 @@ def model_cfg():
   KOpts <- Opts
   Sizes <- SizeSet
   MaxClock = 1
-  FaultBudget = 0
-  EnvBudget = 2
-SPECIFICATION KSpec
+  FaultBudget = %d
+  EnvBudget = %d
+  InitDisc <- %s
+SPECIFICATION %s
 INVARIANT TypeK
-PROPERTIES NoGap
+PROPERTIES %s
 CHECK_DEADLOCK FALSE
-''' % (k['MinWait'], k['HeadReliefChecksProc'], k['TooBigUsesTotal'], k['EarlyByShardCount'], k['TailNeedsEmpty'], k['TooBigFirst'], k['TieBreakByOrder'], k['RevertOrphanTransfer'])
+''' % (k['MinWait'], k['HeadReliefChecksProc'], k['TooBigUsesTotal'], k['EarlyByShardCount'], k['TailNeedsEmpty'], k['TooBigFirst'],
+       k['TieBreakByOrder'], k['RevertOrphanTransfer'], faults, env, initdisc, spec, props)
+
+
+def model_runs(prop, tier):
+    """(name, cfg) of the TLC runs on the closed-loop model: safety over every interleaving with environment changes
+    (and one fault for C06), and liveness - eventually converged for good - under fairness of cycles, scrape rounds
+    and probes (strong fairness for the latter two: they are disabled while a cycle runs)."""
+    f = 1 if prop == 'C06' else 0
+    runs = [('safety', model_cfg('KSpec', 'NoGap', 2 if f == 0 else 1, f, 'None'))]
+    if tier == 'quick':
+        runs.append(('liveness', model_cfg('KFair', 'EventuallyConverged', 0, 0, 'All')))
+    else:
+        runs.append(('liveness', model_cfg('KFair', 'EventuallyConverged', 0 if f else 1, f, 'All')))
+    return runs
 
 
 def run_loop(prop, tier, scratch, faults, replay=None):
@@ -252,8 +268,12 @@ def run_loop(prop, tier, scratch, faults, replay=None):
         runs[s['id']]['quietFrom'] = s['quietFrom']
         runs[s['id']]['expectConverge'] = s['expectConverge']
     # (a) the exhaustive small model
-    mc = C.tlc(sd, 'MCKvass', 'mc.cfg', cfg_text=model_cfg(), timeout=3000, heap='12g')
-    C.require_ok(mc, 'MCKvass')
+    mc = dict(distinct=0, generated=0)
+    for name, cfg in model_runs(prop, tier):
+        res = C.tlc(sd, 'MCKvass', 'mc-%s.cfg' % name, cfg_text=cfg, timeout=7200, heap='12g', workers=8)
+        C.require_ok(res, 'MCKvass ' + name)
+        mc['distinct'] += res['distinct']
+        mc['generated'] += res['generated']
     # (b) trace validation per option preset
     progress = {}
     tstates = ttrans = 0
@@ -371,7 +391,7 @@ def collect(prop, tier, scratch, faults, replay=None):
                         '3-7 rounds of cycle / scrape rounds / environment changes (targets added, removed, growing, going down)%s, then a quiet tail of %d rounds (cycle + three scrape rounds on every shard); '
                         'non-trivial: at least one target was assigned' % (NT, ' / faults (shard unready, GET failing, config push rejected or stale, targets POST lost, scale request failing, sidecar restart from its store)' if faults else '', QUIET_ROUNDS),
                    exhaustive=False, option_presets=PRESETS, model_constants=CY.MODEL_CONSTANTS,
-                   explanation='Kvass.tla (closed loop of one replica) is model-checked exhaustively in a small configuration (2 targets, <=3 shards); every recorded run is validated step by step against Kvass.tla by TLC '
+                   explanation='Kvass.tla (closed loop of one replica) is model-checked exhaustively in a small configuration (2 targets, <=3 shards, min-shard 2, a small and a large size): safety (no gap) over every interleaving with environment changes / one fault, and liveness (eventually converged for good) under fairness; every recorded run is validated step by step against Kvass.tla by TLC '
                                '(KvassTrace: the world after each environment step must be the specified one, the world after a cycle must be reachable through some order of the coordinator\'s internal steps); '
                                'TLC evaluates convergence / stability / no-gap on the recorded worlds (KvassEval) and the cycle formulas on every cycle the coordinator ran (RebalanceEval)')
         return violations, cov, r['drift'], ['scrape rounds, discovery, probing and the StatefulSet are simulated at the harness-owned boundaries; environment steps happen between cycles',
